@@ -12,12 +12,17 @@
                   t.propagateTermination(ctx, termErr) // … unless the limit was inherited (flag set at push): then the
               }                                       //   parent is terminated too (panics again)
           }()
-          err = f()
+          err = t.cleanupCloseStack(c, h, f())   // pending __close handlers run HERE, in the context
+                                                 // being left, while it is still live and metered
           if err != nil { t.setStatus(StatusError) }
           return
       }
 
   `pcall f` is `CallContext{}`; `runtime.callcontext` is `CallContext{kill, stop, flags}`.
+  `call d body handlers`: `handlers` are the pending to-be-closed handlers of the body, one item each, in
+  the order they run; they run after a body that ended normally or with an error (never after a
+  termination: the close stack is truncated), each in the same context; a handler that raises replaces
+  the error and the next handler still runs; only then is the status set.
   A body is a list of items: a raw operation in the active context, a nested call, or `err`
   (f returns a Lua error: the rest of the body is skipped).  After a nested call returns — done,
   error or killed — the enclosing body goes on: that is what pcall / callcontext do.
@@ -28,7 +33,7 @@ open GoluaVerif.Generated.Resources GoluaVerif.Model.Ctx
 
 inductive Item where
   | op (o : Op)
-  | call (d : CtxDef) (body : List Item)
+  | call (d : CtxDef) (body : List Item) (handlers : List Item)
   | err
   deriving Repr, Inhabited
 
@@ -99,15 +104,37 @@ mutual
       | .ok => (a1, .done)
       | .terminated => (a1, .killed (killCause a.st.cur o))
       | .crash => (a1, .crashed)
-    | .call d body =>
-      let (a1, ex) := runBody { a with st := push a.st d } body
+    | .call d body hs =>
+      let (a1, ex) :=
+        match runBody { a with st := push a.st d } body with
+        | (a1, .done) => runHandlers a1 .done hs
+        | (a1, .error) => runHandlers a1 .error hs
+        | (a1, e) => (a1, e)
       let s2 := afterBody ex a1.st
       let (s3, po) := pop s2
       match po with
       | .ok => afterPop a1 ex s2 s3.cur s3.parents
       | .terminated => ({ a1 with st := s3 }, .killed (popCause s2.parents.head! s2.cur))  -- the deferred pop itself panicked
       | .crash => ({ a1 with st := s3 }, .crashed)
+
+  /-- the pending handlers, one item each: a handler that raises replaces the error (`ex` becomes
+  `.error`) and the remaining handlers still run; a termination or foreign panic unwinds -/
+  def runHandlers (a : Acc) (ex : Exit) : List Item → Acc × Exit
+    | [] => (a, ex)
+    | h :: hs =>
+      match runItem a h with
+      | (a1, .done) => runHandlers a1 ex hs
+      | (a1, .error) => runHandlers a1 .error hs
+      | (a1, e) => (a1, e)
 end
+
+/-- `cleanupCloseStack(c, h, f())` in the pushed context: the body, then — unless a panic is
+unwinding — the pending handlers -/
+def runCall (a : Acc) (d : CtxDef) (body hs : List Item) : Acc × Exit :=
+  match runBody { a with st := push a.st d } body with
+  | (a1, .done) => runHandlers a1 .done hs
+  | (a1, .error) => runHandlers a1 .error hs
+  | (a1, e) => (a1, e)
 
 def Acc.start (s : St) : Acc := ⟨s, [], []⟩
 
@@ -121,7 +148,7 @@ mutual
   def Item.wf : Item → Bool
     | .op o => localOp o
     | .err => true
-    | .call _ body => wfBody body
+    | .call _ body hs => wfBody body && wfBody hs
   def wfBody : List Item → Bool
     | [] => true
     | it :: rest => it.wf && wfBody rest
@@ -143,7 +170,7 @@ mutual
     | .op (.reqCpu _) => true
     | .op _ => false
     | .err => false
-    | .call d body => decide (d = CtxDef.none) && bodyPcallCpu body
+    | .call d body hs => decide (d = CtxDef.none) && decide (hs = []) && bodyPcallCpu body
   def bodyPcallCpu : List Item → Bool
     | [] => true
     | it :: rest => it.pcallCpu && bodyPcallCpu rest
@@ -156,7 +183,7 @@ mutual
     | .op (.relMem _) => true
     | .op _ => false
     | .err => false
-    | .call d body => decide (d = CtxDef.none) && bodyPcallMem body
+    | .call d body hs => decide (d = CtxDef.none) && decide (hs = []) && bodyPcallMem body
   def bodyPcallMem : List Item → Bool
     | [] => true
     | it :: rest => it.pcallMem && bodyPcallMem rest
@@ -168,7 +195,7 @@ mutual
     | .op (.reqCpu n) => n.toNat
     | .op _ => 0
     | .err => 0
-    | .call _ body => bodyCost body
+    | .call _ body _ => bodyCost body
   def bodyCost : List Item → Nat
     | [] => 0
     | it :: rest => it.cost + bodyCost rest
@@ -180,7 +207,7 @@ mutual
     | .op (.reqCpu n) => n.toNat + B ≤ 2 ^ 64
     | .op _ => True
     | .err => True
-    | .call _ body => bodyFits B body
+    | .call _ body _ => bodyFits B body
   def bodyFits (B : Nat) : List Item → Prop
     | [] => True
     | it :: rest => it.fits B ∧ bodyFits B rest
